@@ -130,7 +130,11 @@ func NewInProcessTransportListener(addr InProcessAddr) TransportListener {
 func (l *inProcessTransportListener) Close() error {
 	l.closedMu.Lock()
 	defer l.closedMu.Unlock()
-	delete(inProcListeners, l.addr)
+	inProcListenersMu.Lock()
+	if inProcListeners[l.addr] == l {
+		delete(inProcListeners, l.addr)
+	}
+	inProcListenersMu.Unlock()
 	l.closed = true
 	l.done <- true
 	return nil
@@ -146,6 +150,15 @@ func (l *inProcessTransportListener) Listen(_ context.Context, addr net.Addr) er
 		return fmt.Errorf("empty in process address %s", inProcAddr)
 	}
 
+	// The listener may be closed while it is starting (when the server is closed during its start-up)
+	l.closedMu.Lock()
+	defer l.closedMu.Unlock()
+	if l.closed {
+		return errors.New("listener is closed")
+	}
+
+	inProcListenersMu.Lock()
+	defer inProcListenersMu.Unlock()
 	if _, ok := inProcListeners[inProcAddr]; ok {
 		return fmt.Errorf("a listerer is already active on address %s", inProcAddr)
 	}
@@ -186,10 +199,13 @@ func (l *inProcessTransportListener) newClient(addr InProcessAddr, bufferSize in
 }
 
 var inProcListeners = make(map[InProcessAddr]*inProcessTransportListener)
+var inProcListenersMu sync.RWMutex // protects inProcListeners, which is shared by all listeners and dialers
 
 // DialInProcess creates a new in process transport connection to the specified path.
 func DialInProcess(addr InProcessAddr, bufferSize int) (Transport, error) {
+	inProcListenersMu.RLock()
 	l := inProcListeners[addr]
+	inProcListenersMu.RUnlock()
 	if l == nil {
 		return nil, fmt.Errorf("in process connection refused on %s address", addr)
 	}
